@@ -205,6 +205,8 @@ def show(t, depth=0):
     if k == 'p':
         return t[1]
     if k == 'a':
+        if len(t) > 3 and t[3]:
+            return '%s.%s@%d' % (show(t[1], d), t[2], t[3])
         return '%s.%s' % (show(t[1], d), t[2])
     if k == 'call':
         return '%s(%s)' % (t[1], ', '.join(show(x, d) for x in t[2]))
@@ -246,6 +248,10 @@ def show(t, depth=0):
         return '(%s %s %s)' % (show(t[2], d), t[1], show(t[3], d))
     if k == 'lv':
         return 'loopvar%s' % (t[2],)
+    if k == 'phi':
+        return 'phi(%s)' % t[2]
+    if k == 'global':
+        return t[2]
     if k == 'exc':
         return 'exc'
     if k == 'isinstance':
@@ -279,7 +285,7 @@ def subterms(t):
 _KINDS = {'c', 'p', 'a', 'call', 'aff', 'cmp0', 'eq', 'ne', 'is', 'in', 'not',
           'and', 'or', 'truth', 'sub', 'slice', 'obj', 'tuple', 'set',
           'concat', 'bin', 'lv', 'exc', 'isinstance', 'unk', 'ifexp', 'list',
-          'func', 'comp'}
+          'func', 'comp', 'phi', 'global', 'cls', 'ext', 'gen', 'splat'}
 
 
 def mentions(t, sub):
